@@ -27,6 +27,32 @@ pub fn docs(n: u64) -> i32 {
             }
         }
     }
+    // C01's string-resize fault must keep the rest of the document readable: rewriting every string
+    // token of the encrypted corpus files with its own length (as a hexadecimal string, which moves
+    // everything behind it) leaves the walk outcome unchanged
+    let repo = std::env::var("PDF_REPO").unwrap_or_else(|_| "/repo".into());
+    for name in ["passwords_aes_128", "passwords_aes_256", "passwords_aes_256_hardened", "passwords_rc4_rev2", "passwords_rc4_rev3"] {
+        let bytes = match std::fs::read(format!("{}/files/password_protected/{}.pdf", repo, name)) {
+            Ok(b) => b,
+            Err(_) => continue,
+        };
+        let cfg = walker::WalkCfg { tolerant: false, cached: false, stack: 8 << 20 };
+        let base = walker::walk(&bytes, b"userpassword", cfg, None);
+        let toks = c01::string_tokens(&bytes);
+        if !base.loaded || toks.len() < 3 {
+            println!("STRING-RESIZE SELF-CHECK FAIL {}: loaded={} tokens={}", name, base.loaded, toks.len());
+            bad += 1;
+        }
+        for (k, t) in toks.iter().enumerate() {
+            let mut b = bytes.clone();
+            c01::Fault::StringResize { index: k, len: t.2.len(), fill: 0 }.apply(&mut b);
+            let r = walker::walk(&b, b"userpassword", cfg, None);
+            if r.outcome != base.outcome {
+                println!("STRING-RESIZE SELF-CHECK FAIL {} token {} ({} bytes): outcome changed", name, k, t.2.len());
+                bad += 1;
+            }
+        }
+    }
     println!("selftest-docs: {} failures", bad);
     if bad > 0 { 2 } else { 0 }
 }
